@@ -151,12 +151,12 @@ def utility(draw, pal, side, idx, isothermal=None, dts=None, name=None):
 
 @st.composite
 def utilities(draw, pal, max_hot=3, max_cold=3, max_both=1, isothermal=None, allow_none=True, dts=None):
-    if allow_none and draw(st.integers(0, 9)) < 3:
+    if allow_none and draw(st.integers(0, 9)) < 1:
         return []
     out = []
-    for i in range(draw(st.integers(0, max_hot))):
+    for i in range(draw(st.sampled_from([0] + list(range(1, max_hot + 1)) * 2))):
         out.append(draw(utility(pal, "Hot", i + 1, isothermal, dts)))
-    for i in range(draw(st.integers(0, max_cold))):
+    for i in range(draw(st.sampled_from([0] + list(range(1, max_cold + 1)) * 2))):
         out.append(draw(utility(pal, "Cold", i + 1, isothermal, dts)))
     for i in range(draw(st.integers(0, max_both))):
         out.append(draw(utility(pal, "Both", i + 1, isothermal, dts)))
